@@ -17,7 +17,7 @@ from __future__ import annotations
 
 import ast
 
-from ..astutil import guard_facts, kwarg, names_in, parents_map
+from ..astutil import guard_facts, kwarg, names_in, parents_map, calls_in
 from ..model import AnalysisError, norm, walk_own
 from ..report import RuleResult
 
@@ -602,6 +602,19 @@ def rule_closedside(ctx) -> RuleResult:
                        f"an IntervalIndex closed on {member!r} is binned like a {side}-closed one (closed_right is {member == 'both'}): labels that sit on an edge are "
                        + ("kept in one bin only" if member == "both" else "counted although pandas.cut drops them")
                        + "; the branch neither refuses nor handles this member of pandas' closed alphabet")
+    # contiguity clause: edges built as "all left edges + the last right edge" describe the intervals only if they are contiguous.  The branch
+    # must look at every right edge somewhere (a comparison of the labels with rights[code], or a contiguity test / refusal): otherwise a label
+    # in the gap after interval i is given to interval i, where pandas.cut gives it to none.
+    left_last = [a for a in walk_own(f.node) if isinstance(a, ast.Assign) and ".left" in norm(a.value) and ".right" in norm(a.value)
+                 and any(isinstance(x, ast.Subscript) and ".right" in norm(x.value) and "-1" in norm(x.slice) for x in ast.walk(a.value))]
+    if left_last:
+        whole_right = [x for x in walk_own(f.node) if isinstance(x, ast.Attribute) and x.attr == "right"
+                       and not any(x is y for a in left_last for y in ast.walk(a.value))]
+        res.inst(f"{f.qualname}: edges = left edges + last right edge; every right edge consulted elsewhere: {bool(whole_right)}", "contiguity")
+        if not whole_right:
+            res.report(f"{f.qualname}|non-contiguous-intervals-binned-as-contiguous", f"flox/core.py:{left_last[0].lineno}", f.qualname,
+                       f"'{norm(left_last[0])[:70]}' keeps one right edge only: for an IntervalIndex with gaps (pd.IntervalIndex.from_tuples([(0, 1), (2, 3)])) a label in "
+                       "a gap is counted into the interval on its left, where pandas.cut drops it")
     # representation clause: labels and edges reach np.digitize in the SAME representation.  If the edges are viewed / cast (datetime64 edges as
     # int64) the labels must be converted under the same test, to the same unit: integers of different units compare silently wrong, and a
     # datetime label against integer edges is a TypeError.
@@ -973,4 +986,38 @@ def rule_onesided(ctx) -> RuleResult:
                                "handles the unlabelled positions and the first group as one run (a forward fill crosses from one into the other)")
     if n == 0:
         res.notes.append("no shortcut on the maximum of a code array today (the self-test keeps a positive example)")
+    return res
+
+
+# ---------------------------------------------------------------------------------------------
+# R-EDGEVALUE (C07, C05): requested labels and bin edges enter the index with the values the user gave.
+# _convert_expected_groups_to_index wraps the user's expected_groups into pd.Index / pd.IntervalIndex objects; labels are later compared with
+# them exactly (searchsorted / digitize).  A cast of the edges to floating point before the index is built rounds integers beyond 2**53 (epoch
+# nanoseconds) to multiples of 256 -- and promotes the integer labels with them in every comparison -- so labels near an edge change bins
+# where pandas.cut is exact.  No `.astype(<floating>)` (nor np.asarray(..., dtype=float)) in the def-use closure of what is handed to the
+# index constructors.
+def rule_edgevalue(ctx) -> RuleResult:
+    res = RuleResult("R-EDGEVALUE", "the user's requested labels / bin edges are wrapped into indexes without a lossy cast", min_instances=2)
+    f = ctx.prog.func("core._convert_expected_groups_to_index")
+    n = 0
+    for c in calls_in(f.node):
+        fn = norm(c.func)
+        if fn not in ("pd.IntervalIndex.from_breaks", "pd.Index", "pd.IntervalIndex", "pd.IntervalIndex.from_arrays", "pandas.Index") or not c.args:
+            continue
+        n += 1
+        clo = _local_closure(f, c.args[0])
+        lossy = []
+        for e in clo:
+            for x in ast.walk(e):
+                if isinstance(x, ast.Call) and isinstance(x.func, ast.Attribute) and x.func.attr == "astype" and x.args and "float" in norm(x.args[0]):
+                    lossy.append(x)
+                if isinstance(x, ast.Call) and norm(x.func) in ("np.asarray", "np.array", "np.asanyarray") and kwarg(x, "dtype") is not None and "float" in norm(kwarg(x, "dtype")):
+                    lossy.append(x)
+        res.inst(f"_convert_expected_groups_to_index: {fn}({norm(c.args[0])[:30]}): lossy casts on the way: {[norm(x)[:40] for x in lossy] or '-'}", f"ctor|{c.lineno}")
+        for x in lossy[:1]:
+            res.report(f"core._convert_expected_groups_to_index|edges-cast-to-float|{fn}", f.where(x), f.qualname,
+                       f"'{norm(x)[:50]}' converts the requested labels / edges to floating point before {fn}(…): integers beyond 2**53 are rounded (and integer labels are "
+                       "promoted with them in every later comparison), so a label within 128 of an edge lands in another bin than pandas.cut puts it in")
+    if n == 0:
+        raise AnalysisError("_convert_expected_groups_to_index builds no pandas index (anchor)")
     return res
